@@ -1,6 +1,7 @@
 package verifsim
 
 import (
+	"crypto/x509/pkix"
 	"bytes"
 	"crypto"
 	"crypto/ecdsa"
@@ -140,6 +141,9 @@ func (c *CRLSpec) Build() *CRLSpec {
 		default:
 			c.Alg = ECDSASHA256
 		}
+	}
+	if c.CritUnknown && (c.Version == 1 || c.NoExts) {
+		c.Version, c.NoExts = 2, false // an unknown critical extension needs a list that can carry extensions
 	}
 	ver := c.Version
 	if ver == 0 {
@@ -303,6 +307,16 @@ func AKIBytes(ca *CA, form int) []byte {
 		case akiForeignKey:
 			b.AddASN1(cbasn1.Tag(0).ContextSpecific(), func(b *cryptobyte.Builder) { b.AddBytes([]byte{0xde, 0xad, 0xbe, 0xef, 1, 2, 3, 4}) })
 		}
+		if form == akiSerialOnly || form == akiURISerial {
+			if form == akiURISerial {
+				b.AddASN1(cbasn1.Tag(1).ContextSpecific().Constructed(), func(b *cryptobyte.Builder) {
+					b.AddASN1(cbasn1.Tag(6).ContextSpecific(), func(b *cryptobyte.Builder) { b.AddBytes([]byte("http://ca.sim/issuer")) })
+				})
+			}
+			b.AddASN1(cbasn1.Tag(2).ContextSpecific(), func(b *cryptobyte.Builder) {
+				b.AddBytes(ca.Cert.SerialNumber.Bytes())
+			})
+		}
 		if form == akiIssuerSer || form == akiBoth {
 			b.AddASN1(cbasn1.Tag(1).ContextSpecific().Constructed(), func(b *cryptobyte.Builder) {
 				b.AddASN1(cbasn1.Tag(4).ContextSpecific().Constructed(), func(b *cryptobyte.Builder) {
@@ -321,6 +335,27 @@ func AKIBytes(ca *CA, form int) []byte {
 // that a generator bug cannot masquerade as a defect of the code under test. Only called for
 // documents in the standard profile (supported algorithm).
 func (c *CRLSpec) CrossCheck() error {
+	if c.Version == 1 {
+		// crypto/x509.ParseRevocationList refuses v1 lists; encoding/asn1 over the classic pkix.CertificateList
+		// structure is the whole-document reference decoder for them
+		var cl pkix.CertificateList
+		rest, err := asn1.Unmarshal(c.DER, &cl)
+		if err != nil || len(rest) != 0 {
+			return fmt.Errorf("generator: reference decoder cannot parse v1 list %s: %v", c.Name, err)
+		}
+		if cl.TBSCertList.Version != 0 || len(cl.TBSCertList.RevokedCertificates) != len(c.Entries) {
+			return fmt.Errorf("generator: %s: version %d, %d entries, reference decoder sees %d", c.Name, cl.TBSCertList.Version, len(c.Entries), len(cl.TBSCertList.RevokedCertificates))
+		}
+		for i, e := range cl.TBSCertList.RevokedCertificates {
+			if e.SerialNumber.Cmp(c.Entries[i].Serial) != 0 {
+				return fmt.Errorf("generator: %s entry %d serial mismatch", c.Name, i)
+			}
+		}
+		if !bytes.Equal(cl.TBSCertList.Raw, c.TBS) {
+			return fmt.Errorf("generator: %s tbs mismatch", c.Name)
+		}
+		return nil
+	}
 	rl, err := x509.ParseRevocationList(c.DER)
 	if err != nil {
 		return fmt.Errorf("generator: stdlib cannot parse %s: %v", c.Name, err)
